@@ -5,7 +5,7 @@
    Tree: fix-mc (e8b4517: bias tolerance sqrt(theta)*rmse; d6e63ca: new level starts with Nl = 0). *)
 From Coq Require Import Reals List ZArith QArith Bool.
 From RV Require Import Base.RB Base.RCeilMC Gen.GenC06Criteria Model.Alloc Model.McStats Model.Mlmc
-                       Proofs.C06_Alloc Proofs.C06_Loop.
+                       Proofs.C06_Alloc Proofs.C06_Loop Proofs.C06_Compose.
 Import ListNotations.
 
 (* for all variance vectors V >= 0, cost vectors C > 0 (same length) and all rmse > 0, the ceil'ed Giles
@@ -25,10 +25,11 @@ Theorem C06_budget_zero_cost_refuted :
                    ((1 - 1 / 4) * rmse ^ 2 < est_var V (giles_alloc rmse V C))%R.
 Proof. exact budget_zero_cost_refuted. Qed.
 
-(* squared bias tolerance + variance share <= rmse^2 (both shares read from the generated definitions) *)
-Theorem C06_bias_plus_variance : forall alpha m3 m2 m1 rmse,
-  (0 <= rmse)%R -> (0 <= giles_rem alpha m3 m2 m1)%R -> criteria_giles alpha m3 m2 m1 rmse = true ->
-  ((giles_rem alpha m3 m2 m1) ^ 2 + (1 - 1 / 4) * rmse ^ 2 <= rmse ^ 2)%R
+(* squared bias tolerance + variance share <= rmse^2 (both shares read from the generated definitions; ml is the LIST
+   of level means -- one, two, three or more entries; guard 2^alpha > 1: for alpha = 0 the code divides by zero) *)
+Theorem C06_bias_plus_variance : forall alpha ml rmse,
+  (0 <= rmse)%R -> Forall (fun m => 0 <= m)%R ml -> (1 < Rpower 2 alpha)%R -> criteria_giles alpha ml rmse = true ->
+  ((giles_rem alpha ml) ^ 2 + (1 - 1 / 4) * rmse ^ 2 <= rmse ^ 2)%R
   /\ ((sqrt (1 / 4) * rmse) ^ 2 + (1 - 1 / 4) * rmse ^ 2 = rmse ^ 2)%R.
 Proof. exact bias_plus_variance. Qed.
 
@@ -43,6 +44,7 @@ Theorem C06_safety :
         /\ Forall (fun v => 100 * ldN v <= lN v)%nat (levels s)
         /\ (1 <= nconv s)%nat
         /\ (conv (nconv s - 1)%nat = true \/ (length (levels s) - 1)%nat = level_max)
+        /\ (1 <= nalloc s)%nat /\ dN_is (alloc (nalloc s - 1)%nat) 0 (levels s)   (* ldN = max(0, last answer - N_l) *)
     | Fallthrough s => (length (levels s) <= S level_max)%nat /\ total_dN (levels s) = 0%nat
     | OutOfFuel => True
     end.
@@ -66,6 +68,18 @@ Theorem C06_level_above_maximum_refuted :
     /\ map lN (levels s) = [3; 3; 3; 3]%nat /\ (1 < length (levels s) - 1)%nat.
 Proof. exact level_above_maximum_ex. Qed.
 
+(* budget and loop composed: at a return from the convergence branch whose last allocation answer is the Giles allocation
+   of (V, C), the estimator variance with the sample sizes ACTUALLY used is within the 1% rule of the variance share *)
+Theorem C06_budget_at_converged_return :
+  forall sample cost alloc conv garbage df notional level_max phantom fuel L0 N0 s rmse V C,
+    (L0 <= level_max)%nat ->
+    price_run sample cost alloc conv garbage df notional level_max phantom fuel L0 N0 = Converged s ->
+    (0 < rmse)%R -> length V = length C -> Forall (fun v => 0 <= v)%R V -> Forall (fun c => 0 < c)%R C ->
+    length (alloc (nalloc s - 1)%nat) = length (levels s) ->
+    map IZR (alloc (nalloc s - 1)%nat) = giles_alloc rmse V C ->
+    (est_var V (map (fun v => INR (lN v)) (levels s)) <= 101 / 100 * ((1 - 1 / 4) * rmse ^ 2))%R.
+Proof. exact budget_at_converged_return. Qed.
+
 (* FULL statement wanted: "a pricing run always terminates".  Proved: for every oracle whose allocation answers
    are bounded (exists Bd, forall k l, alloc k [l] <= Bd) and initial_level <= maximum_level some fuel suffices.
    Unconditional termination is false of the loop (adversarial variance estimates can demand more forever). *)
@@ -88,4 +102,5 @@ Print Assumptions C06_safety.
 Print Assumptions C06_fallthrough_characterised.
 Print Assumptions C06_return_without_bias_test_refuted.
 Print Assumptions C06_level_above_maximum_refuted.
+Print Assumptions C06_budget_at_converged_return.
 Print Assumptions C06_termination_partial.
